@@ -60,6 +60,12 @@ def check(ctx):
 
 
 def check_config(ctx, F, tag):
+    if not getattr(ctx, "_map", None):
+        import c14
+        from core import Relabel
+        mapped_fn = lambda k: "Mapped" in k.split("|")[0] or "Mapper" in k.split("|")[0]
+        c14.check_config(Relabel(ctx, {"C14.R1.result-consumed": ("C13.R4.refusal-propagates.result-consumed", mapped_fn),
+                                       "C14.R1.io-result-propagated": ("C13.R4.refusal-propagates.io-result-propagated", mapped_fn)}), F, tag, views=False)
     mapped.check_views(ctx, F, tag, prefix="C13.R1")
     impls = {im["self"]: im for im in serfmt.serialize_impls(F)}
     for im, b in mapped.views(F):
